@@ -462,6 +462,9 @@ func (f *FuncCtx) callFunc(fn *types.Func, recv *Val, recvExpr ast.Expr, e *ast.
 	// sync primitives, context: no effect
 	switch pkgPath {
 	case "sync", "sync/atomic":
+		if (fn.Name() == "Lock" || fn.Name() == "RLock") && recvExpr != nil && f.spec == nil {
+			f.lockAcquire(recvExpr, env)
+		}
 		return f.resultsOf(sig, fn.Name())
 	}
 	if nonNilErrFuncs[pkgPath+"."+fn.Name()] {
@@ -719,6 +722,13 @@ func (f *FuncCtx) callContract(fn *types.Func, c *FuncContract, pc *PkgContracts
 		}
 	}
 	cpkg := fn.Pkg()
+	if pc != nil && pc != f.PC && !f.axiomsDone[pc.Dir] && f.spec == nil {
+		// axioms stated in the callee's package travel with its contracts
+		f.axiomsDone[pc.Dir] = true
+		saved := f.spec
+		f.emitAxiomsOf(pc, cpkg, env)
+		f.spec = saved
+	}
 	pre := env.clone()
 	f.callOrd[short]++
 	ord := f.callOrd[short]
@@ -977,4 +987,62 @@ func (f *FuncCtx) doPanic(e *ast.CallExpr, env *Env) {
 	}
 	env.dead = true
 	env.pc = "false"
+}
+
+
+// lockAcquire models acquiring a mutex: the state it guards may have been changed by other goroutines
+// since it was last observed, so every mutable field of the guarded object is havocked (thread-modular
+// reasoning: inside the critical section only the type invariant is known about shared state).
+// old(...) refers to the state right after the first acquisition.
+func (f *FuncCtx) lockAcquire(recvExpr ast.Expr, env *Env) {
+	recvExpr = ast.Unparen(recvExpr)
+	var base ast.Expr
+	if t := f.typeOf(recvExpr); t != nil {
+		if n := namedOf(t); n != nil && n.Obj().Pkg() != nil && n.Obj().Pkg().Path() == "sync" {
+			if sel, ok := recvExpr.(*ast.SelectorExpr); ok {
+				base = sel.X
+			}
+		} else {
+			base = recvExpr // embedded mutex
+		}
+	}
+	if base == nil {
+		return
+	}
+	bt := f.typeOf(base)
+	if bt == nil {
+		return
+	}
+	mut := f.E.mutableFields(f.Pkg)
+	if st, el, ok := ptrStruct(bt); ok {
+		bv := f.expr(base, env)
+		for i := 0; i < st.NumFields(); i++ {
+			fl := st.Field(i)
+			if !mut[fl] {
+				continue
+			}
+			h := f.heapName(el, fl)
+			hs := f.heapSort[h]
+			nv := f.freshVal(fl.Type(), "lk_"+fl.Name())
+			env.heap[h] = f.define("H_"+fl.Name(), fmt.Sprintf("(Array %s %s)", hs[0], hs[1]), fmt.Sprintf("(store %s %s %s)", f.heapGet(env, h), bv.T, nv.T))
+		}
+	} else if _, ok := bt.Underlying().(*types.Struct); ok {
+		// struct value with embedded mutex held in a field: havoc that field
+		if sel, ok := base.(*ast.SelectorExpr); ok {
+			if obj, _, _ := types.LookupFieldOrMethod(f.typeOf(sel.X), true, f.Pkg.Types, sel.Sel.Name); obj != nil {
+				if fl, ok := obj.(*types.Var); ok {
+					f.assign(base, f.freshVal(fl.Type(), "lk_"+fl.Name()), env)
+				}
+			}
+		}
+	}
+	f.note("mutex acquisition: mutable fields of the guarded object havocked (other goroutines may have run)")
+	if f.fr != nil && f.fr.depth == 0 && !f.locked {
+		f.locked = true
+		// re-assume the type invariant and requires that mention the guarded state, then re-base old()
+		if f.relock != nil {
+			f.relock(env)
+		}
+		f.entry = env.clone()
+	}
 }
